@@ -285,6 +285,13 @@ func c20Channel(c *core.Ctx, id string, idx int, idle time.Duration) {
 	// the handler is built well before the channel becomes active (pipeline prepared ahead of time, slow executor):
 	// the idle period still starts at activation
 	earlyBuild := idx%6 == 4 && !pendingClose
+	// the context the channel was created with ends in the middle of the silence; nobody closes the channel and its read
+	// loop is parked in the transport, so the channel stays open (no inactive event) and idleness keeps being reported
+	parentEnds := idx%9 == 4 && !pendingClose && !st.closeInActive && !preCancelled
+	var parentCancel context.CancelFunc
+	if parentEnds {
+		st.heartbeat = false // a heartbeat would wake the read loop, which then closes the channel itself
+	}
 	var h netty.Handler
 	if st.read {
 		h = netty.ReadIdleHandler(idle)
@@ -311,6 +318,10 @@ func c20Channel(c *core.Ctx, id string, idx int, idle time.Duration) {
 	}
 	opts := mon.RigOpts{Mode: mon.Mode(idx % 3), Queue: 8, NoPark: true, NoHooks: true,
 		Handlers: []netty.Handler{before, h, after, c20Reader{}}}
+	if parentEnds {
+		opts.Ctx, parentCancel = context.WithCancel(context.Background())
+		defer parentCancel()
+	}
 	if preCancelled {
 		pctx, cancel := context.WithCancel(context.Background())
 		cancel()
@@ -418,7 +429,15 @@ func c20Channel(c *core.Ctx, id string, idx int, idle time.Duration) {
 	// phase 2: silence
 	silence := 3*idle + 1200*time.Millisecond
 	silenceStart := time.Now()
-	time.Sleep(silence)
+	if parentEnds {
+		time.Sleep(idle / 4)
+		parentCancel()
+		c.Count("parent_context_ended_during_silence", 1)
+		pattern += "P"
+		time.Sleep(silence - idle/4)
+	} else {
+		time.Sleep(silence)
+	}
 	st.mu.Lock()
 	evInSilence := 0
 	for _, e := range st.events {
@@ -548,6 +567,8 @@ func c20Channel(c *core.Ctx, id string, idx int, idle time.Duration) {
 	need := int((silence - idle - 750*time.Millisecond) / idle)
 	if late > 250000 {
 		c.Count("progress_inconclusive_canary_late", 1)
+	} else if !st.I.IsZero() && st.I.Before(silenceStart.Add(silence)) {
+		c.Count("progress_not_judged_channel_ended_during_silence", 1)
 	} else {
 		c.Count("progress_judged", 1)
 		if evInSilence < need {
